@@ -1118,7 +1118,7 @@ class Variable(CanBehaveLikeAVariable[T]):
             yield from self._process_output_and_update_values_(instance, **kwargs)
 
     @staticmethod
-    def _call_user_code_(function: Callable, **kwargs) -> Any:
+    def _call_user_code_(function: Callable, /, **kwargs) -> Any:
         """
         Call a user's class / predicate concretely. The evaluation step as a whole runs with the symbolic mode off, but
         user code that is suspended inside the step (a generator used as a domain that keeps a `with symbolic_mode():`
@@ -1160,7 +1160,7 @@ class Variable(CanBehaveLikeAVariable[T]):
         """
         return get_cache_keys_for_class_(self._cache_, self._type_)
 
-    def _process_output_and_update_values_(self, function_output: Any, **kwargs) -> Iterable[Dict[int, HashedValue]]:
+    def _process_output_and_update_values_(self, function_output: Any, /, **kwargs) -> Iterable[Dict[int, HashedValue]]:
         """
         Process the output of the predicate/variable and get the results.
 
